@@ -500,6 +500,11 @@ func (y YangRange) parseChildRanges(s string, decimal bool, fracDigRequired uint
 			min.FractionDigits = fracDigRequired
 			return min, nil
 		case decimal:
+			// A decimal-value of RFC 7950 has digits on both sides
+			// of the point and no plus sign.
+			if d := strings.TrimPrefix(s, "-"); strings.HasPrefix(d, ".") || strings.HasSuffix(d, ".") || strings.HasPrefix(d, "+") {
+				return Number{}, fmt.Errorf("%s is not a valid decimal number", s)
+			}
 			return ParseDecimal(s, fracDigRequired)
 		default:
 			return parseIntegerValue(s)
